@@ -248,6 +248,25 @@ mod verif_pdu_w {
         }
     }}
 
+    // The property statement as given: "every payload item (.., ASPA) with EITHER action .. read back yields the same
+    // item".  KNOWN FINDING (known_findings.txt, C07): an ASPA withdrawal written with a non-empty provider list comes
+    // back from to_payload with an empty one (Payload::new writes the providers, make_payload drops them on withdraw).
+    // pdu_w_payload above leaves that comparison out; this harness states it, so that the finding is shown by a cheap
+    // native run in the quick tier (the complete Kani harness pdu_payload_aspa_withdraw_roundtrip is in the thorough tier).
+    //@harness pdu_w_aspa_withdraw_providers W fn=Payload::new,Payload::to_payload,Aspa::new
+    verif_search!{ pdu_w_aspa_withdraw_providers; |customer: u32, p0: u32, n: u8| {
+        let provs: Vec<u32> = (0..(n % 4) as u32).map(|i| p0.wrapping_add(i)).collect();
+        let item = payload::Payload::aspa(Asn::from_u32(customer), ProviderAsns::try_from_iter(provs.iter().map(|a| Asn::from_u32(*a))).expect("a few providers fit"));
+        let pdu = Payload::new(2, 0, item.as_ref());            // flags 0 = withdraw
+        match pdu.to_payload() {
+            Ok((act, payload::Payload::Aspa(a))) => {
+                assert!(matches!(act, payload::Action::Withdraw) && a.customer.into_u32() == customer, "same action and customer");
+                assert!(a.providers.iter().map(|x| x.into_u32()).collect::<Vec<_>>() == provs, "an ASPA withdrawal read back yields the same item (provider list included)");
+            }
+            _ => panic!("an ASPA PDU written by the library converts back to an ASPA item"),
+        }
+    }}
+
     //@harness pdu_w_control W fn=SerialNotify::{new,read,try_read,read_payload,write},SerialQuery::{new,read,try_read,read_payload,write},SerialQueryPayload::{read,serial},ResetQuery::{new,read,try_read,read_payload,write},CacheResponse::{new,read,try_read,read_payload,write},CacheReset::{new,read,try_read,read_payload,write},EndOfData::{new,read_payload,write,version,session,serial,timing},EndOfDataV0::{new,read,try_read},EndOfDataV1::{new,read,try_read,timing},Payload::read,Error::{new,write,skip_payload},Header::{read,new} n=80000 timeout=600
     verif_search!{ pdu_w_control; |r: u64, session: u16, serial: u32, refresh: u32, retry: u32, expire: u32, code: u16, elen: u16, eseed: [u8; 8], tlen: u8, text: [u8; 24]| {
         let mut g = Sel::new(&[r as u128, session as u128, serial as u128, refresh as u128, retry as u128, expire as u128, code as u128, elen as u128, tlen as u128, eseed[0] as u128, text[0] as u128]);
